@@ -35,6 +35,7 @@ type Script struct {
 	K     int    `json:"k"`     // deliveries in flight (called, not met) when Close is called, in model units
 	W     int    `json:"w"`     // the model's worker count: K in {W, 2W} scales with the real worker count
 	Procs int    `json:"procs"` // GOMAXPROCS of the child process that runs this script (0: default)
+	Inner bool   `json:"inner"` // also run on the "+innererr" variants of the wrapping stacks
 	Steps []Step `json:"steps"`
 }
 
@@ -175,7 +176,7 @@ func runScript(st *Stack, sc Script, caseID int, baseline map[int]bool, grace ti
 	}
 	mult := sc.backlogMult()
 	w.rec.log(Ev{Ev: "reset", Lvl: "stack", Comp: st.Name, Phase: phase,
-		Info: fmt.Sprintf("script=%d hub=%s b=%d k=%d inflight=%d gomaxprocs=%d", sc.ID, sc.Hub, sc.B, sc.K, sc.K*mult, runtime.GOMAXPROCS(0))})
+		Info: fmt.Sprintf("script=%d hub=%s b=%d k=%d inflight=%d gomaxprocs=%d %s", sc.ID, sc.Hub, sc.B, sc.K, sc.K*mult, runtime.GOMAXPROCS(0), st.Info)})
 	names := map[string]*Op{}
 	var gmu sync.Mutex
 	var held []*cbInst
@@ -403,6 +404,19 @@ func runScript(st *Stack, sc Script, caseID int, baseline map[int]bool, grace ti
 		}
 		time.Sleep(40 * time.Millisecond)
 	}
+	// every inner swarm the stack owns was closed by its Close (the wrapper counts the calls)
+	if !closeRetAt.IsZero() {
+		for _, ic := range st.Inners {
+			if ic.closes.Load() == 0 {
+				w.rec.log(Ev{Ev: "InnerOpen", Fn: ic.name, Info: "Close of the stack returned, this inner swarm was never closed; " + st.Info})
+			}
+		}
+	}
+	for _, ic := range st.Inners {
+		if ic.closes.Load() == 0 {
+			closeQuietly(ic.real)() // hygiene only, after the observations
+		}
+	}
 	evs := w.rec.seal()
 	for _, op := range w.stop() {
 		op.cancel()
@@ -423,13 +437,19 @@ func runMatrixChild(out, scriptsPath, kind string, from int, seed int64, caseBas
 	}
 	defer sk.close()
 	seenLeak := map[string]int{}
+	nvariant := from
 	for i := from; i < len(scripts); i++ {
 		sc := scripts[i]
+		isVariant := strings.Contains(kind, "+")
+		if isVariant && !sc.Inner {
+			continue
+		}
 		baseline := map[int]bool{}
 		for _, g := range allGoroutines() {
 			baseline[g.id] = true
 		}
-		st, err := newStack(kind)
+		st, err := newStackV(kind, 7-(nvariant%7)) // multiswarm3: all three transports fail first, then every other subset
+		nvariant++
 		if err != nil {
 			return fmt.Errorf("creating stack %s: %w", kind, err)
 		}
